@@ -22,6 +22,7 @@ C == Cases[ci]
 Export(l) ==
   PrintT(<<"PLACE", ToJson([ci |-> ci, id |-> C.id, sites |-> l.sites,
                             wraps |-> l.wraps, nests |-> l.nests,
+                            empties |-> l.empties,
                             semi |-> l.semi])>>)
 
 Init == ci \in 1..Len(Cases) /\ lay = EmptyLayout /\ sent = FALSE
@@ -39,6 +40,16 @@ InsertSpace        == InsertNoise("sp")
 InsertNewline      == InsertNoise("nl")
 InsertHashComment  == InsertNoise("hash")
 InsertBlockComment == InsertNoise("block")
+(* every ASCII character the parsers treat as layout: tab, \r, \f, \v, and *)
+(* CRLF line ends                                                          *)
+InsertControlSpace == \E k \in {"tab", "cr", "ff", "vt", "crlf"} : InsertNoise(k)
+(* an extra ';' or a comment-only statement at a statement boundary        *)
+EmptyStatement ==
+  /\ Room
+  /\ \E b \in 0..Len(C.toks), cc \in 0..2 :
+       /\ CanEmpty(C, lay, b)
+       /\ lay' = AddEmpty(lay, b, cc)
+  /\ UNCHANGED <<ci, sent>>
 
 WrapParens ==
   /\ Room
@@ -71,7 +82,8 @@ Emit ==
   /\ UNCHANGED <<ci, lay>>
 
 Next == \/ InsertSpace \/ InsertNewline \/ InsertHashComment
-        \/ InsertBlockComment \/ WrapParens \/ NestParens
+        \/ InsertBlockComment \/ InsertControlSpace \/ EmptyStatement
+        \/ WrapParens \/ NestParens
         \/ TrailingSemicolon \/ Emit
 
 Spec == Init /\ [][Next]_vars
